@@ -135,7 +135,7 @@ def gen_spec(rng, profile="full"):
         if c["dtype"] != "S" and rng.random() < 0.35:
             c["bounds"] = gen_bounds(rng, names, c)
         if c["dtype"] == "S":
-            c["mask"] = rng.random() < 0.06 and not core   # probe: numpy width > longest unmasked string
+            c["mask"] = rng.random() < 0.2 and not core   # numpy width > longest unmasked string
             for k in ("valid_range", "flag_values", "flag_meanings", "units", "calendar"):
                 c["props"].pop(k, None)
         cons.append(c)
@@ -272,10 +272,8 @@ def gen_spec(rng, profile="full"):
             elif r < 0.2 and not core:
                 ax = [rng.choice(["realization", "forecast_period", "model_level_number"])]
             else:
-                # an axis without a dimension coordinate cannot be matched by cfdm's equals (C05): small probe
-                pl = with_dim if (with_dim and (core or rng.random() < 0.95)) else list(range(nax))
-                if core and not with_dim:
-                    continue
+                # any axis: one with a dimension coordinate, one with auxiliary coordinates only, a bare one
+                pl = with_dim if (with_dim and rng.random() < 0.5) else list(range(nax))
                 ax = rng.sample(pl, min(rng.choice([1, 1, 2]), len(pl)))
             cm = {"axes": ax, "method": rng.choice(METHODS), "quals": {}}
             if rng.random() < 0.25:
@@ -493,6 +491,19 @@ SIG_SYMPTOMS = {
 }
 
 
+def _fixed_signatures():
+    import os
+    try:
+        with open(os.path.join(os.path.dirname(os.path.dirname(os.path.dirname(os.path.abspath(__file__)))),
+                               "known_findings.d", "C01.json")) as fh:
+            return {k["signature"] for k in json.load(fh)["findings"] if k.get("status") == "fixed-pending"}
+    except (OSError, ValueError, KeyError):
+        return set()
+
+
+FIXED = _fixed_signatures()
+
+
 def residual_signature(extra, r):
     if "write_err" in extra:
         return "write-raises"
@@ -657,8 +668,16 @@ def oracle(chk, cases, rows, stats):
             continue
         explained.add(c["i"])
         stats["failures"] = stats.get("failures", 0) + 1
-        if exp:
-            sig = exp[0]
+        sy = symptoms(r)
+        # a class that has been repaired (fixed-pending) is not expected to manifest: the other classes of the
+        # case come first; a case that only has repaired classes is reported under the repaired signature
+        exp = [e for e in exp if e not in FIXED] or exp
+        wild = [e for e in exp if e not in SIG_SYMPTOMS]
+        if wild:
+            sig = wild[0]           # a structure-changing class explains every symptom
+        elif exp:
+            hit = [e for e in exp if SIG_SYMPTOMS[e] & sy]
+            sig = (hit or exp)[0]
         elif "write_err" in r:
             sig = "write-raises"
         elif "read_err" in r:
@@ -676,10 +695,10 @@ def oracle(chk, cases, rows, stats):
         else:
             sig = "source-changed"
         stats["sig:" + sig] = stats.get("sig:" + sig, 0) + 1
-        if exp and all(e in SIG_SYMPTOMS for e in exp):
+        if exp and not wild:
             # the known classes of this case explain only some components: anything else is a second failure
             allowed = set().union(*(SIG_SYMPTOMS[e] for e in exp))
-            extra = symptoms(r) - allowed
+            extra = sy - allowed
             if extra:
                 sig2 = residual_signature(extra, r)
                 stats["sig2:" + sig2] = stats.get("sig2:" + sig2, 0) + 1
@@ -696,8 +715,11 @@ def oracle(chk, cases, rows, stats):
 WORDS = ["a", "bc", "def", "gh", "ijklm", "n", "opq"]
 
 
-def str_width(shape_n, base):
-    return max(len(WORDS[(base + j) % len(WORDS)] + str((base + j) % 3)) for j in range(max(shape_n, 1)))
+def str_width(shape_n, base, mask=False):
+    """Width of the char storage of drive/c01.py make_array(dtype 'S'): the longest unmasked element."""
+    n = max(shape_n, 1)
+    hidden = ((base % (n - 1)) + 1 if n > 2 else 1) if (mask and n > 1) else None
+    return max(len(WORDS[(base + j) % len(WORDS)] + str((base + j) % 3)) for j in range(n) if j != hidden)
 
 
 def in_model(spec, opts):
@@ -743,7 +765,7 @@ def g_skel(spec, opts):
             n = 1
             for a in c["axes"]:
                 n *= spec["axes"][a]["size"]
-            sl = "(Some %s)" % gz(str_width(n, 11 * (j + 1)))
+            sl = "(Some %s)" % gz(str_width(n, 11 * (j + 1), c.get("mask")))
         return "{| c_type := %s; c_axes := %s; c_std := %s; c_ncvar := %s; c_bounds := %s; c_strlen := %s; c_measure := %s |}" % (
             T[c["type"]], glist(c["axes"], lib.gnat), g_ostr(c["props"].get("standard_name")), g_ostr(c["ncvar"]), gb, sl,
             gstr(c.get("measure", "")))
